@@ -352,7 +352,7 @@ func (c *Ctx) c04Loops(rule string, fns []*ssa.Function, floor int) {
 						ev := errResultOf(call)
 						leaves := false
 						if ev != nil {
-							for _, e := range nilEdges(ev, false) {
+							for _, e := range failEdges(ev) {
 								if !l.Body[e.to()] {
 									leaves = true
 								} else if _, isRet := e.to().Instrs[len(e.to().Instrs)-1].(*ssa.Return); isRet {
